@@ -42,6 +42,14 @@ var actionFuncs = []string{"grammar.current.onInput2", "grammar.current.onInput1
 var selectorActionFuncs = []string{"grammar.current.onSelector2", "grammar.current.onSelector9", "grammar.current.onJsonPointerSegment1", "grammar.current.onIdentifier1",
 	"grammar.current.onSelectorOrIndex2", "grammar.current.onSelectorOrIndex7", "grammar.current.onSelectorOrIndex10", "grammar.current.onIndexExpression2"}
 
+// parser actions a property observed on expression *text* depends on
+var boolActionFuncs = []string{"grammar.current.onOrExpression2", "grammar.current.onAndExpression2", "grammar.current.onNotExpression2"}
+var operatorActionFuncs = []string{"grammar.current.onMatchEqual1", "grammar.current.onMatchNotEqual1", "grammar.current.onMatchIsEmpty1", "grammar.current.onMatchIsNotEmpty1",
+	"grammar.current.onMatchIn1", "grammar.current.onMatchNotIn1", "grammar.current.onMatchContains1", "grammar.current.onMatchNotContains1", "grammar.current.onMatchMatches1", "grammar.current.onMatchNotMatches1",
+	"grammar.current.onMatchSelectorOpValue1", "grammar.current.onMatchSelectorOp1", "grammar.current.onMatchValueOpSelector2"}
+var collectionActionFuncs = []string{"grammar.current.onCollectionExpression1", "grammar.current.onCollectionIdentifiers2", "grammar.current.onCollectionIdentifiers13",
+	"grammar.current.onCollectionIdentifiers23", "grammar.current.onCollectionIdentifiers33", "grammar.current.onCollectionOpAny1", "grammar.current.onCollectionOpAll1"}
+
 var baseTrust = []string{"A-GEN", "A-SSA", "A-REFLECT", "A-STRCONV", "A-FMT", "A-ERRORS", "A-OPTS", "A-FN", "A-SEQ", "A-STR", "A-GLOBALS"}
 
 func trust(extra ...string) []string { return append(append([]string(nil), baseTrust...), extra...) }
@@ -83,13 +91,13 @@ func init() {
 		"bexpr.getMatchExprValue", "bexpr.primitiveEqualityFn", "bexpr.doEqualBool", "bexpr.doEqualInt64", "bexpr.doEqualUint64", "bexpr.doEqualFloat32",
 		"bexpr.doEqualFloat64", "bexpr.doEqualString", "bexpr.doMatchEqual", "bexpr.evaluateMatchExpression"}...),
 		Trusted: trust("A-JSON", "A-PS")})
-	add(&propSpec{ID: "C03", Level: "proof", Funcs: withChain([]string{"bexpr.evaluate"}...), Trusted: trust("A-STACK")})
-	add(&propSpec{ID: "C04", Level: "proof", Funcs: withChain([]string{"bexpr.evaluateMatchExpression", "grammar.MatchOperator.NotPresentDisposition", "bexpr.doMatchIsEmpty", "bexpr.doMatchEqual", "bexpr.doMatchIn", "bexpr.doMatchMatches"}...),
+	add(&propSpec{ID: "C03", Level: "proof", Funcs: withChain(append(append([]string(nil), boolActionFuncs...), []string{"bexpr.evaluate"}...)...), Trusted: trust("A-STACK")})
+	add(&propSpec{ID: "C04", Level: "proof", Funcs: withChain(append(append([]string(nil), operatorActionFuncs...), []string{"bexpr.evaluateMatchExpression", "grammar.MatchOperator.NotPresentDisposition", "bexpr.doMatchIsEmpty", "bexpr.doMatchEqual", "bexpr.doMatchIn", "bexpr.doMatchMatches"}...)...),
 		Trusted: trust("A-PS", "A-REGEXP", "A-STRINGS", "A-JSON")})
 	add(&propSpec{ID: "C05", Level: "proof", Funcs: withChain(append([]string{"bexpr.getValue", "bexpr.evaluateNotPresent", "bexpr.derefValue", "grammar.MatchOperator.NotPresentDisposition",
 		"bexpr.evaluateMatchExpression", "bexpr.evaluateCollectionExpression", "bexpr.Evaluator.Evaluate"}, optFuncs...)...),
 		Trusted: trust("A-PS", "A-HOOK")})
-	add(&propSpec{ID: "C06", Level: "proof", Funcs: withChain(append([]string{"bexpr.evaluateCollectionExpression", "bexpr.evaluateCollectionExpression$1", "bexpr.getValue"}, optFuncs...)...),
+	add(&propSpec{ID: "C06", Level: "proof", Funcs: withChain(append(append([]string(nil), collectionActionFuncs...), append([]string{"bexpr.evaluateCollectionExpression", "bexpr.evaluateCollectionExpression$1", "bexpr.getValue"}, optFuncs...)...)...),
 		Trusted: trust("A-PS", "A-SORT", "A-STACK")})
 	// determinism is a consequence of the functional posts (the result is a spec function of the
 	// arguments, with the key enumeration unconstrained): every function of the chain counts
@@ -120,7 +128,7 @@ func init() {
 	add(&propSpec{ID: "C15", Level: "exploration", BatteryIsCheck: true, DistinctKey: "accepted_distinct", Funcs: append(append([]string(nil), actionFuncs...), engineFuncs...),
 		Rule:    "every sequence of <= 2 tokens over a 46-token alphabet (keywords, keywords as identifier prefixes, operators, punctuation, numbers incl. malformed, quoted/backtick/pointer/unterminated/bad-escape strings, an invalid UTF-8 byte) and <= 3 tokens over a 20-token core (thorough: <= 3 and <= 4), each with every assignment of {\"\", \" \"} to the gaps, plus ~110 complete statements; grammar.Parse is compared with an independent hand-written PEG recognizer/AST builder (accept/reject and deep equality of the tree). distinct_nontrivial = distinct inputs accepted by both",
 		Trusted: []string{"A-GEN", "A-ENGINE", "the reference parser /verif/replay/zz_bxv_refparse_test.go is the oracle"}})
-	add(&propSpec{ID: "C16", Level: "exploration", BatteryIsCheck: true, DistinctKey: "distinct_texts", Funcs: actionFuncs,
+	add(&propSpec{ID: "C16", Level: "exploration", BatteryIsCheck: true, DistinctKey: "distinct_texts", Funcs: append(append([]string(nil), actionFuncs...), "bexpr.CreateEvaluator", "bexpr.CreateFilter"),
 		Rule:    "trees of depth <= 2 over 3 selectors x 8 operators x 4 literals x not/and/or x any/all with 4 binding modes (thinned to ~1500 in the quick tier), each rendered under 4 layouts (thorough: 76) choosing whitespace, redundant parentheses, quote style, selector spelling and in/contains; parsed back with grammar.Parse and compared with the tree (modulo Selector.Type); plus X == <quoted s> on X = s and X = s+\"x\" for 226 strings in both quote styles. distinct_nontrivial = distinct rendered texts",
 		Trusted: []string{"A-GEN", "A-ENGINE"}})
 	add(&propSpec{ID: "C07", Level: "proof", Funcs: withChain(append([]string{"bexpr.getValue", "bexpr.evaluateMatchExpression", "bexpr.evaluateCollectionExpression", "grammar.Selector.String"}, selectorActionFuncs...)...),
